@@ -42,7 +42,7 @@ def run_one(m, tier):
         for prop in m['props']:
             r = subprocess.run([os.path.join(HERE, 'check'), prop, '--tier', tier], env=env, capture_output=True, text=True)
             out = '\n'.join(l for l in (r.stdout + r.stderr).splitlines() if 'WARNING' not in l)
-            outs.append("[%s exit=%d]\n%s" % (prop, r.returncode, out[-1500:]))
+            outs.append("[%s exit=%d]\n%s" % (prop, r.returncode, out[-12000:]))
             if r.returncode == 1 and 'VIOLATION' in out:
                 verdict = 'caught'
                 exp = m.get('expect')
@@ -62,6 +62,7 @@ def main():
     ap = argparse.ArgumentParser()
     ap.add_argument('--prop'); ap.add_argument('--name'); ap.add_argument('--seeded', action='store_true')
     ap.add_argument('--jobs', type=int, default=2); ap.add_argument('--tier', default='quick'); ap.add_argument('-v', action='store_true')
+    ap.add_argument('--table', help='write a JSON list {name, prop, verdict, obligations} (which obligation / bounded signature reported each change)')
     a = ap.parse_args()
     ms = []
     if a.seeded:
@@ -78,13 +79,19 @@ def main():
     if a.name:
         ms = [m for m in ms if a.name in m['name']]
     bad = 0
+    table = []
     with ThreadPoolExecutor(a.jobs) as ex:
         for m, verdict, out, dt in ex.map(lambda m: run_one(m, a.tier), ms):
             print("%-55s %-28s %5.0fs" % (m['name'], verdict, dt))
+            import re
+            obls = re.findall(r'VIOLATION property=\S+ replay=\S+ obligation=(.*?) detail=', out)
+            table.append({'name': m['name'], 'prop': m['props'][0], 'verdict': verdict, 'obligations': obls[:6], 'n_violation_lines': out.count('VIOLATION property=')})
             if not verdict.startswith('caught') or a.v:
                 print('    ' + out.replace('\n', '\n    ')[-2500:])
             if not verdict.startswith('caught'):
                 bad += 1
+    if a.table:
+        json.dump(table, open(a.table, 'w'), indent=1)
     print("%d mutants, %d not caught" % (len(ms), bad))
     return 1 if bad else 0
 
